@@ -6518,6 +6518,17 @@ impl<'a, 'graph> Builder<'a, 'graph> {
           self.resolved_roots.insert(specifier.clone());
         }
 
+        // The final specifier may already hold a loaded module when the
+        // request got here through an implicit redirect. Keep that entry:
+        // visiting it again re-requests its dependencies, which never ends
+        // when one of them explicitly redirects back to this request.
+        if let Some(slot) = self.graph.module_slots.get(&specifier)
+          && matches!(slot, ModuleSlot::Module(_))
+          && !slot.was_external_asset_load()
+        {
+          return;
+        }
+
         if let Some((checksum, module_info)) = pending_load.map(|v| *v) {
           self.state.jsr.pending_content_loads.push({
             let specifier = specifier.clone();
